@@ -329,6 +329,9 @@ def run(F, R):
             if sub and UCE in S.nodes[a].ctx.bv.crate.types[sub[1]]["s"] and S.nodes[a].ctx is S.root:
                 allowed_edges.add((a, b))
         for w in sorted(lut):
+            mg_ = smod.merged_value_guard(S, w)
+            if mg_:
+                R.condition("merged-classification", mg_, ("C02-R4",))
             still = w in reach(S, [S.root.entry], cut_edges=allowed_edges)
             p = path(S, [S.root.entry], [w], cut_edges=allowed_edges) if still else None
             R.check("C02-R4", "last-contact-writer:" + _ctxkey(S.nodes[w].ctx), not still, "written only under check Ok / ResponseParser / InstallPlan",
